@@ -49,6 +49,11 @@ def model(decls, stmt, where):
         return xmlgen.simple_model(decl=decl + "\nint t() { if (b) { return 1; } else { return 2; } %s; return 3; }" % stmt)
     if where == "nested-after-return":
         return xmlgen.simple_model(decl=decl + "\nvoid t() { { return; } %s; }" % stmt)
+    body = {"if-body": "if (b) { %s; }", "else-branch": "if (b) { h = 1; } else { %s; }", "while-body": "while (h < 2) { %s; h++; }",
+            "do-body": "do { %s; h++; } while (h < 2);", "nested-block": "{ { { %s; } } }", "iteration-body": "for (qz : int[0,1]) { %s; }",
+            "for-init": "for (%s; h < 2; h++) { }", "if-condition": "if ((%s) > 0) { h = 1; }", "return-expression": "h = 1; return; h = (%s);"}
+    if where in body:
+        return xmlgen.simple_model(decl=decl + "\nvoid t() { %s }" % (body[where] % stmt))
     if where == "for-clause":
         return xmlgen.simple_model(decl=decl + "\nvoid t() { int i; for (i = 0; i < 1; %s) { i++; } }" % stmt)
     raise ValueError(where)
@@ -67,6 +72,12 @@ def run(rep, tier, seed):
                 w = w.replace("setref(", "setrefb(").replace("fwd(", "fwdb(")
             for where in ("function", "update", "for-clause"):
                 pairs.append((name, w + "@" + where, model(decls, w % cl, where), model(decls, w % ml, where)))
+            if not quick or w in ("%s = 1", "%s++"):
+                # every statement position of a function body (quick: two write forms, thorough: all of them)
+                for where in ("if-body", "else-branch", "while-body", "do-body", "nested-block", "iteration-body", "for-init", "if-condition"):
+                    if where == "if-condition" and ("setref" in w or "fwd" in w):
+                        continue        # void call in a condition
+                    pairs.append((name, w + "@" + where, model(decls, w % cl, where), model(decls, w % ml, where)))
             if w in ("%s = 1", "%s++", "setref(%s)", "%s += 1"):
                 # statements the control flow cannot reach are still part of the model
                 for where in ("after-return", "after-if-else-return", "nested-after-return"):
